@@ -39,6 +39,14 @@ def step (s : TM Hash) (ws : List String) : TM Hash × String :=
     match bn.toNat?, bp.toNat?, idx.toNat?, hashOf leaf with
     | some bn, some bp, some idx, some leaf => run (.add bn bp idx leaf)
     | _, _, _, _ => (s, "bad-op")
+  | ["addF", k, bn, bp, idx, leaf] =>
+    match k.toNat?, bn.toNat?, bp.toNat?, idx.toNat?, hashOf leaf with
+    | some k, some bn, some bp, some idx, some leaf => run (.addF k bn bp idx leaf)
+    | _, _, _, _, _ => (s, "bad-op")
+  | ["upsertF", k, bn, bp, idx, leaf] =>
+    match k.toNat?, bn.toNat?, bp.toNat?, idx.toNat?, hashOf leaf with
+    | some k, some bn, some bp, some idx, some leaf => run (.upsertF k bn bp idx leaf)
+    | _, _, _, _, _ => (s, "bad-op")
   | ["upsert", bn, bp, idx, leaf] =>
     match bn.toNat?, bp.toNat?, idx.toNat?, hashOf leaf with
     | some bn, some bp, some idx, some leaf => run (.upsert bn bp idx leaf)
